@@ -83,3 +83,21 @@ def pos_diff(a, b):
 def sample_of(case, trace, n=30):
     return dict(cls=case.get("cls"), regions=case.get("regions"), settings=dict(
         (k, v) for k, v in (case.get("settings") or {}).items() if v not in (None, False)), trace=brief(trace, n))
+
+
+def unrank_sequence(index, nletters, maxlen):
+    """index-th sequence (as a list of letter numbers) among all sequences of length 1..maxlen; None when exhausted."""
+    for L in range(1, maxlen + 1):
+        n = nletters ** L
+        if index < n:
+            seq = []
+            for _ in range(L):
+                seq.append(index % nletters)
+                index //= nletters
+            return seq
+        index -= n
+    return None
+
+
+def sequence_space(nletters, maxlen):
+    return sum(nletters ** L for L in range(1, maxlen + 1))
